@@ -632,3 +632,62 @@ def algorithm_ctor(u: Unit):
 
 from . import calibreport as _CR12  # noqa: E402
 unit("C12", "ctor[running modes]")(_CR12.mode_ctor_unit)   # Exposure / Observation return the settings they were built with
+
+
+# ---- WavelengthHandling (the wavelength section of the environment): accepted <=> 0 < cut_on <= cut_off and resolution > 0 ----------------
+WAVE_REPLAY = lambda w: {"code": """
+from pyxel.detectors import WavelengthHandling
+VIOLATED, DETAIL = False, 'WavelengthHandling keeps its three values and refuses non-positive cut_on / resolution and cut_on > cut_off'
+for c_on, c_off, res, ok in ((500.0, 900.0, 10, True), (500.0, 500.0, 1, True), (0.0, 900.0, 10, False), (-1.0, 900.0, 10, False), (900.0, 500.0, 10, False), (500.0, 900.0, 0, False),
+                              (500.0, 900.0, -5, False), (1e-9, 1e-9, 1, True)):
+    try:
+        h = WavelengthHandling(cut_on=c_on, cut_off=c_off, resolution=res)
+        good = ok and (h.cut_on, h.cut_off, h.resolution) == (c_on, c_off, res) and h.to_dict() == {'cut_on': c_on, 'cut_off': c_off, 'resolution': res} and WavelengthHandling.from_dict(h.to_dict()) == h
+    except ValueError:
+        good = not ok
+    if not good:
+        VIOLATED, DETAIL = True, f'WavelengthHandling(cut_on={c_on}, cut_off={c_off}, resolution={res}): expected {"accepted and kept" if ok else "refused"}'; break
+""", "expect": "accepted exactly when 0 < cut_on <= cut_off and resolution > 0; the three values are kept and survive to_dict / from_dict"}
+
+
+@unit("C12", "ctor[WavelengthHandling]")
+def wavelength_ctor(u: Unit):
+    """WavelengthHandling.__post_init__ for arbitrary reals cut_on, cut_off and integer resolution: accepted exactly when
+    0 < cut_on <= cut_off and resolution > 0, otherwise ValueError; to_dict / from_dict carry the three values at their own names."""
+    q = "pyxel/detectors/environment.py::WavelengthHandling"
+    fp, ft, ff = u.fn(f"{q}.__post_init__"), u.fn(f"{q}.to_dict"), u.fn(f"{q}.from_dict")
+    ci = u.cls(q)
+    on, off_, res = z3.Real("cut_on"), z3.Real("cut_off"), z3.Int("resolution")
+    valid = z3.And(on > 0, on <= off_, res > 0)
+
+    def setup(ex):
+        me = ex.st.alloc(HObj(ci, {"cut_on": VFloat(on), "cut_off": VFloat(off_), "resolution": VInt(res)}))
+        ex.me = me
+        return [me], {}
+    ps = u.paths(fp, setup, Cfg("real"), label="WavelengthHandling.__post_init__")
+    for p in ps:
+        if p.kind == "return":
+            f = p.st.cell(p.ex.me).fields
+            kept = z3.And(to_real(f["cut_on"]) == on, to_real(f["cut_off"]) == off_, z_int(int_of(f["resolution"])) == res)
+            u.oblige(p, "ctor.WavelengthHandling.accepted_only_if_valid", z3.And(valid, kept), {"cut_on": on, "cut_off": off_, "resolution": res}, WAVE_REPLAY)
+        else:
+            u.oblige(p, "ctor.WavelengthHandling.refused_only_if_invalid", z3.And(zb(p.exc_name() == "ValueError"), z3.Not(valid)), {"cut_on": on, "cut_off": off_, "resolution": res}, WAVE_REPLAY)
+    u.cover("ctor.WavelengthHandling.cover", ps, lambda p: p.kind == "return")
+    u.cover("ctor.WavelengthHandling.cover_refusal", ps, lambda p: p.kind == "raise")
+    # to_dict then from_dict: every value back under its own name
+    for p in u.paths(ft, setup, Cfg("real"), label="WavelengthHandling.to_dict"):
+        d = p.ex.try_dict(p.value) if p.kind == "return" else None
+        ok = d is not None and [k.v for k, _ in d] == ["cut_on", "cut_off", "resolution"]
+        goal = z3.And(to_real(d[0][1]) == on, to_real(d[1][1]) == off_, z_int(int_of(d[2][1])) == res) if ok else z3.BoolVal(False)
+        u.oblige(p, "ctor.WavelengthHandling.to_dict_names_its_values", goal, {}, WAVE_REPLAY)
+
+    def setup_f(ex):
+        ex.st.assume(valid)
+        d = ex.st.alloc(HDict([(VStr("resolution"), VInt(res)), (VStr("cut_off"), VFloat(off_)), (VStr("cut_on"), VFloat(on))]))
+        return [VClass(ci), d], {}
+    for p in u.paths(ff, setup_f, Cfg("real"), label="WavelengthHandling.from_dict"):
+        if p.kind != "return" or not isinstance(p.value, VRef):
+            u.oblige(p, "ctor.WavelengthHandling.from_dict_reads_its_names", False, {"exc": p.exc_name()}, WAVE_REPLAY)
+            continue
+        f = p.st.cell(p.value).fields
+        u.oblige(p, "ctor.WavelengthHandling.from_dict_reads_its_names", z3.And(to_real(f["cut_on"]) == on, to_real(f["cut_off"]) == off_, z_int(int_of(f["resolution"])) == res), {}, WAVE_REPLAY)
